@@ -474,13 +474,19 @@ func (w *wWorld) clientTask(i int) {
 	w.done[i] = true
 }
 
-// originValue: anchor origins are mostly strings, sometimes objects or arrays (any JSON value is allowed).
+// originValue: anchor origins are mostly strings, sometimes objects, arrays, numbers, booleans or absent (any JSON value is allowed).
 func originValue(n int) interface{} {
-	switch n % 4 {
+	switch n % 8 {
 	case 1:
 		return map[string]interface{}{"domain": fmt.Sprintf("origin-%d", n), "tags": []interface{}{"a", "b"}}
 	case 2:
 		return []interface{}{fmt.Sprintf("origin-%d", n), "second"}
+	case 4:
+		return nil // the anchor origin is optional
+	case 5:
+		return float64(n)
+	case 6:
+		return n%16 == 6 // true or false
 	default:
 		return fmt.Sprintf("origin-%d", n)
 	}
